@@ -169,6 +169,9 @@ def rule_pure(ctx: Ctx) -> None:
 
 
 # ---------------------------------------------------------------------------- rule 2
+CONVERTER_NAMES: set[str] = set()  # functions of the module that turn a str quantity into a number (filled by rule_magnitude from the annotations)
+
+
 def _raw_quantity(e: ast.AST) -> str | None:
     """`e` contains a str-typed quantity (attribute .memory/.time or mapping entry ['memory'/'time']) that is not inside a converter call."""
     par = {id(c): p for p in ast.walk(e) for c in ast.iter_child_nodes(p)}
@@ -188,7 +191,7 @@ def _raw_quantity(e: ast.AST) -> str | None:
                 conv = True  # identity / equality test: a bool flows on, not the text
             if isinstance(y, ast.IfExp) and child is y.test:
                 conv = True
-            if isinstance(y, ast.Call) and ("convert" in dotted(y.func).lower() or dotted(y.func).rsplit(".", 1)[-1] in ("len", "bool", "isinstance", "str")):
+            if isinstance(y, ast.Call) and ("convert" in dotted(y.func).lower() or dotted(y.func).rsplit(".", 1)[-1] in {"len", "bool", "isinstance", "str"} | CONVERTER_NAMES):
                 conv = True
             if isinstance(y, ast.comprehension) and child is y.iter and id(y) in par:
                 # the quantity is what a comprehension iterates over: what flows on is its element expression - converted when the
@@ -204,7 +207,7 @@ def _raw_quantity(e: ast.AST) -> str | None:
                         wrapped = False
                         while id(z) in ep:
                             z = ep[id(z)]
-                            if isinstance(z, ast.Call) and ("convert" in dotted(z.func).lower() or dotted(z.func).rsplit(".", 1)[-1] in ("len", "bool", "isinstance", "str")):
+                            if isinstance(z, ast.Call) and ("convert" in dotted(z.func).lower() or dotted(z.func).rsplit(".", 1)[-1] in {"len", "bool", "isinstance", "str"} | CONVERTER_NAMES):
                                 wrapped = True
                         raw_here = raw_here or not wrapped
                 if not raw_here:
@@ -216,6 +219,14 @@ def _raw_quantity(e: ast.AST) -> str | None:
 
 def _touches_quantity(e: ast.AST) -> bool:
     return any((isinstance(x, ast.Attribute) and x.attr in STR_QUANTITIES) or (isinstance(x, ast.Subscript) and isinstance(x.slice, ast.Constant) and x.slice.value in STR_QUANTITIES) for x in ast.walk(e))
+
+
+def _plain_pattern(pat: str, nodes: list[ast.AST]) -> str:
+    """The pattern as the regex engine reads it: under re.VERBOSE / re.X white space and `# comments` are not part of it."""
+    verbose = any(isinstance(x, ast.Attribute) and x.attr in ("VERBOSE", "X") for x in nodes) or pat.lstrip().startswith("(?x)")
+    if not verbose:
+        return pat
+    return re.sub(r"(?<!\\)#[^\n]*", "", pat).replace(" ", "").replace("\n", "").replace("\t", "").replace("(?x)", "")
 
 
 def _ordering_sites(fn: FuncInfo):
@@ -236,6 +247,16 @@ def rule_magnitude(ctx: Ctx) -> None:
             str_fields.add(name)
     if not STR_QUANTITIES <= str_fields:
         raise AnalysisError(f"expected memory and time to be str-typed fields, got {sorted(str_fields)}")
+    # a converter is known by its TYPE, not by its name: it takes a str and returns a number
+    CONVERTER_NAMES.clear()
+    for f_ in ctx.prog.functions_in(MOD):
+        r_ = f_.node.returns
+        if r_ is None:
+            continue
+        rt = ctx.typer.ann(f_.module, f_, r_).scalars()
+        takes_str = any(a_.annotation is not None and "str" in ctx.typer.ann(f_.module, f_, a_.annotation).scalars() for a_ in f_.params)
+        if takes_str and ({"int", "float"} & rt) and "str" not in rt and "bool" not in rt:
+            CONVERTER_NAMES.add(f_.name)
     # everything that orders resources: the module itself, and the nested function's maximum (a helper, or spelled into the constructor)
     nested = [f for q in ("pipefunc._pipefunc._maybe_max_resources", "pipefunc._pipefunc.NestedPipeFunc.__init__") if (f := ctx.prog.functions.get(q)) is not None]
     targets = [*ctx.prog.functions_in(MOD), *nested]
@@ -509,7 +530,7 @@ def rule_rest(ctx: Ctx) -> None:  # noqa: C901, PLR0915
     for fname, what in (("_is_valid_wall_time", "wall-time"), ("_convert_to_gb", "memory")):
         f = P.maybe_func(f"{MOD}.Resources.{fname}")
         nodes = _scope_nodes(ctx, f) if f is not None else []
-        pats = [x.value for x in nodes if isinstance(x, ast.Constant) and isinstance(x.value, str) and "\\d" in x.value]
+        pats = [_plain_pattern(x.value, nodes) for x in nodes if isinstance(x, ast.Constant) and isinstance(x.value, str) and "\\d" in x.value]
         good = bool(pats) and all(p.startswith("^") and p.endswith("$") for p in pats)
         fullmatch = any(isinstance(c, ast.Call) and isinstance(c.func, ast.Attribute) and c.func.attr == "fullmatch" for c in nodes)
         ctx.tri("5-validated", f if f is not None else f"{MOD}.Resources.{fname}", f.node if f is not None else "", good or (bool(pats) and fullmatch), bool(pats) and not good and not fullmatch,
@@ -520,7 +541,8 @@ def rule_rest(ctx: Ctx) -> None:  # noqa: C901, PLR0915
     if wt is not None:
         import re._parser as rp  # type: ignore[import-not-found]
 
-        pats = [x.value for x in _scope_nodes(ctx, wt) if isinstance(x, ast.Constant) and isinstance(x.value, str) and "\\d" in x.value]
+        wt_nodes = _scope_nodes(ctx, wt)
+        pats = [_plain_pattern(x.value, wt_nodes) for x in wt_nodes if isinstance(x, ast.Constant) and isinstance(x.value, str) and "\\d" in x.value]
         for pat in pats[:1]:
             try:
                 tree = rp.parse(pat)
